@@ -61,7 +61,6 @@ MAP_REDIRECTS = [
 # build_fq_name("a","b","c") > 5 min), so `format!("{}_{}", a, b)` is replaced by its contract
 # a ++ "_" ++ b.  All OTHER format! calls build error messages and are stubbed to "".
 FMT_REDIRECTS = [
-    ("src/desc.rs", 'format!("${}", label_name)', "crate::__vsup::fmt_dollar(label_name)"),
     ("src/metrics.rs", 'format!("{}_{}_{}", namespace, subsystem, name)', "crate::__vsup::fmt_join3(namespace, subsystem, name)"),
     ("src/metrics.rs", 'format!("{}_{}", namespace, name)', "crate::__vsup::fmt_join2(namespace, name)"),
     ("src/metrics.rs", 'format!("{}_{}", subsystem, name)', "crate::__vsup::fmt_join2(subsystem, name)"),
@@ -80,6 +79,11 @@ TEXT_REGEX_REDIRECTS = [
     ("src/encoder/text.rs", r"\b([A-Za-z_][A-Za-z0-9_]*(?:\.[A-Za-z_][A-Za-z0-9_]*\(\))*)\.to_string\(\)", r"crate::__vsup::num_token(\1)", 2),
 ]
 TEXT_ASSUMPTION = "std number formatting is replaced by opaque injective tokens at every `&<expr>.to_string()` call site in encoder/text.rs (f64::to_string x3, i64::to_string; regex rewrite) and `format!(\"{:?}\", metric_type).to_lowercase()` by the table counter/gauge/summary/untyped/histogram (exact-text rewrite in the scratch copy): that std's shortest round-trip Display/FromStr of f64 is faithful (finite values bit-exact, inf/NaN preserved) and that derive(Debug) prints the variant name are ASSUMED; a full parser round trip is not run inside the verifier"
+# `format!("${}", x)` in desc.rs: regex, zero matches allowed (code that no longer builds the
+# '$'-prefixed copy has nothing to redirect)
+FMT_REGEX_REDIRECTS = [
+    ("src/desc.rs", r'format!\("\$\{\}",\s*&?([A-Za-z_][A-Za-z0-9_]*)\)', r"crate::__vsup::fmt_dollar(\1)", 0),
+]
 FMT_ASSUMPTION = "std format! is replaced by its contract at the 5 call sites whose result is used functionally (desc.rs `format!(\"${}\", label_name)` -> \"$\" ++ name; metrics.rs build_fq_name's three joins and registry.rs gather's prefix join -> a ++ \"_\" ++ b) by exact-text rewrite in the scratch copy; every other format! builds an error message and is stubbed to the empty string. Reason: std::fmt::write does not terminate under CBMC even on concrete arguments (measured > 5 min)"
 MAPS_ASSUMPTION = "std HashMap/HashSet/BTreeMap/BTreeSet are replaced by the contract shim /verif/kani/vcoll.rs (functional map with key equality; HashMap iteration order is a nondeterministic permutation at every iteration = every hash seed; BTree* iterate in key order) through a mechanical rewrite of the `use std::collections::...` lines of counter.rs, desc.rs, histogram.rs, metrics.rs, vec.rs, registry.rs, pulling_gauge.rs in the scratch copy; the std implementations themselves are assumed to meet that contract"
 
@@ -268,9 +272,10 @@ def inject_spec(pid: str, features: str = "plain"):
         spec["crate_modules"].append(("__vcoll", CRATE_MODULES["__vcoll"]))
         spec["redirects"] += MAP_REDIRECTS
         spec["replacements"] = list(FMT_REDIRECTS)
+        spec["regex_replacements"] = list(FMT_REGEX_REDIRECTS)
     if p.get("text"):
         spec["replacements"] = spec.get("replacements", []) + list(TEXT_REDIRECTS)
-        spec["regex_replacements"] = list(TEXT_REGEX_REDIRECTS)
+        spec["regex_replacements"] = spec.get("regex_replacements", []) + list(TEXT_REGEX_REDIRECTS)
     spec["contracts"] = list(p.get("contracts", []))
     for cs in p.get("contract_sets", []):
         spec["contracts"] += CONTRACTS[cs]
@@ -284,3 +289,25 @@ NOT_APPLICABLE = {
     "C14": "same function as C07 (RegistryCore::gather merges families by name without looking at the type): out of CBMC's reach (measured, 60-minute limit). Reading the code shows the defect the property describes (a counter and a gauge sharing name and help are merged into one family whose declared type is that of the first collector iterated), but no check of this framework decides it, so it is neither claimed nor listed as a known finding; see DESIGN.md.",
     "C19": "quantifies over all make_static_metric! declarations: the code is a proc-macro token-stream generator (syn/quote); no contract on a token builder can express 'the generated item addresses child X', and checking a few fixed expansions has no symbolic input (DESIGN.md section 5 C19)",
 }
+
+
+LEVEL_TEXT = {
+    "C01": "per-call atomic-step contracts of every counter operation discharged by CBMC under arbitrary interference (every value read at every atomic step havocked, every f64/u64 delta), sequential functional contracts, and an unbounded Verus composition lemma for one atomic cell; schedules are covered by composition (A2), not explored; CAS retries bounded (K=1 quick, up to 66 refusals for the never-gives-up obligation)",
+    "C02": "REDUCED: only the per-thread protocol-step guarantees (cells, order, orderings, lock, wait-loop exit) are machine-checked under arbitrary interference; the consistent-cut statement over all schedules is not decided",
+    "C03": "inductive step obligations of the two-shard representation invariant from ARBITRARY invariant states (values complete, B<=3/4 buckets bounded) + Verus lemma lifting them to every finite sequential history; concurrent histories only through C02's steps",
+    "C04": "bounded/enumerated: escape_string on every string of length <= 2 over an adversarial 7-symbol alphabet, layout functions on concrete families against literal text, find_first_occurence symbolically; unbounded Verus lemmas on the escaping spec (round trip, no raw LF, quotes cannot close)",
+    "C05": "bounded: hasher byte streams of two symbolic tuples are equal only if the tuples are equal (2 labels x <=2 bytes), map-form and positional cardinality errors, make_label_pairs on concrete scenarios; unbounded Verus framing-injectivity lemma; FNV collision freedom assumed",
+    "C06": "bounded: register/unregister pre/post incl. frame-on-failure over an abstract registry view with <=1 registered collector and <=2 incoming descriptors, ids and dimension hashes complete over u64",
+    "C08": "check_and_adjust_buckets acceptance <=> spec over every f64 bit pattern (lengths 0-3/4), first-fit rule on both observe paths from arbitrary pre-states, cumulative counts; unbounded Verus lemma (any number of buckets and observations) from exactly the three facts Kani discharges",
+    "C09": "per-char classifiers as genuine kani::ensures contracts proved for every char; identifier validators on strings of <=4 chars with one arbitrary Unicode char; Desc::new acceptance <=> spec for one const + one variable label with names over all of ASCII; build_fq_name, check_bucket_label, Registry::new_custom validation on enumerated inputs",
+    "C10": "bounded: sequential contract of every critical section of MetricVecCore from an arbitrary abstract map of <=2 children (keys complete over u64) + lock-discipline obligations from the lock shim's ghost state; linearizability by lock composition is an argument, schedules are not explored",
+    "C11": "as C01 for gauges: one 64-bit store / one atomic add per operation (f64 and i64), sub = add of the negation, exact inversion for i64, discharged under arbitrary interference",
+    "C12": "ledger step obligations (local updates event-free, flush hands over exactly the pending batch once, reset/clear/clone/drop) from arbitrary states plus histories built only through public operations; Verus lemmas lift to all histories; local vector forms not under contract",
+    "C15": "bounded/enumerated: Desc.id / Desc.dim_hash equal FNV-1a of the framed streams (real hasher) for concrete descriptors incl. empty values, boundary shifts and unsorted variable labels; unbounded framing lemma; one const label only",
+    "C16": "the accessor algebra of the exposition data model proved with the same harness text against BOTH data models (scalar fields complete over f64/u64/i64) + mechanical closure check that feature-independent code uses only contracted accessors",
+    "C17": "bounded, as the property itself states: CBMC's reachable-panic obligations plus Err/Ok specs on the Result-returning entry points over invalid arguments (names, label cardinalities, bucket parameters over every f64, every MetricType)",
+    "C18": "timer state machine for every way of ending a shared or local timer and every Duration the clock contract allows: exactly one observation / none when discarded, >= 0 s, returned = recorded; loop-free, complete modulo the clock stubs",
+}
+for _k, _v in LEVEL_TEXT.items():
+    if _k in PLAN:
+        PLAN[_k]["level_text"] = _v
